@@ -348,6 +348,20 @@ def getHs : ConeScaling α → MErr (Array α)
     -- `Hsblock[..dim1] = μ·d1`, `Hsblock[dim1..] = μ·d2` (`dim2 = r.len()`)
     pure (d1.map (fun d => μ * d) ++ Array.replicate r.size (μ * d2))
 
+/-- `set_identity_scaling` of the symmetric cones the model covers (zero, nonnegative,
+second-order): the scaling data the cone holds afterwards, whatever it held before.
+`T::FRAC_1_SQRT_2()` is the double nearest to `1/√2`, which is `sqrt(1/2)` correctly rounded. -/
+def identityScaling : ConeSpec → Option (ConeScaling α)
+  | .zero d => some (.zero d)
+  | .nonneg d => some (.nonneg (Array.replicate d 1))
+  | .soc d =>
+    if d > socNoExpansionMaxSize then
+      let half : α := 1 / (1 + 1)
+      some (.socSparse d 1 ((Array.replicate d 0).set! 0 (sqrt half)) (Array.replicate d 0) half)
+    else
+      some (.socDense ((Array.replicate d 0).set! 0 1) 1)
+  | _ => none
+
 /-- `_update_values_KKT` (`zip` truncates; the index panics) -/
 def updateValuesKKT (nz : Array α) (index : Array Nat) (values : Array α) : MErr (Array α) :=
   (index.toList.zip values.toList).foldlM (fun (a : Array α) p => setE a p.1 p.2 "KKT.nzval[idx]") nz
